@@ -68,7 +68,7 @@ L(k, p, ok, v) == [k |-> k, p |-> p, t |-> now, ok |-> ok, v |-> v]
 KInit ==
   /\ now = 0 /\ agenda = {} /\ seq = 1 /\ evs = <<>> /\ procs = <<>>
   /\ cur = NoCur /\ run = NoRun
-  /\ top = [mode |-> "top", uk |-> "none", ue |-> 0, n |-> 0]
+  /\ top = [mode |-> "top", uk |-> "none", ue |-> 0, ut |-> 0, n |-> 0]
   /\ log = <<>> /\ script = <<<<>>>> /\ res = <<>> /\ ftab = IntTimes
 
 Stepping == top.mode \in {"run", "step", "steps"}
@@ -260,8 +260,15 @@ ResState == ResStateFrom(1)
 
 \* what run()/step() do when they return or raise
 Return(kind, v, lg) ==
-  /\ top' = [top EXCEPT !.mode = "top", !.uk = "none", !.ue = 0]
+  /\ top' = [top EXCEPT !.mode = "top", !.uk = "none", !.ue = 0, !.ut = 0]
   /\ log' = Append(lg, L(kind, 0, kind = "RET", v))
+\* A run(until=...) that ends without reaching its stop (a failure escapes, or the schedule runs dry) takes its stop
+\* back: the stop callback leaves the until-event, the stop occurrence of a numeric until leaves the agenda.  A stop
+\* left behind would end a LATER run early -- run(until=t') returning with now < t' (repaired behaviour, finding F25).
+AbortEvs == IF top.mode = "run" /\ top.uk = "ev" THEN [evs EXCEPT ![top.ue].cbs = RemoveOne(@, Cb("stop", 0))]
+            ELSE IF top.mode = "run" /\ top.uk = "time" THEN [evs EXCEPT ![top.ue].st = "withdrawn", ![top.ue].cbs = <<>>]
+            ELSE evs
+AbortAgenda == IF top.mode = "run" /\ top.uk = "time" THEN {a \in agenda : a.e # top.ue} ELSE agenda
 
 NextCb ==
   /\ cur.e # 0 /\ run.p = 0 /\ cur.cbs # <<>>
@@ -312,22 +319,24 @@ EndStep ==
   /\ cur.e # 0 /\ run.p = 0 /\ cur.cbs = <<>>
   /\ cur' = NoCur
   /\ IF ~evs[cur.e].ok /\ ~evs[cur.e].def
-     THEN Return("X", evs[cur.e].val, log)                        \* an unhandled failure escapes step()/run()
-     ELSE IF top.mode = "step"
-     THEN /\ top' = [top EXCEPT !.mode = "top"]
-          /\ log' = Append(log, L("T", 0, TRUE, Val("peek", Peek(agenda), <<>>)))
-     ELSE IF top.mode = "steps"                    \* run by single steps, observing the resources after each
-     THEN /\ log' = Append(log, L("T", 0, TRUE, Val("peek", Peek(agenda), ResState)))
-          /\ UNCHANGED top
-     ELSE UNCHANGED <<top, log>>
-  /\ UNCHANGED <<now, agenda, seq, evs, procs, run, script, res>>
+     THEN /\ Return("X", evs[cur.e].val, log)                     \* an unhandled failure escapes step()/run()
+          /\ evs' = AbortEvs /\ agenda' = AbortAgenda
+     ELSE /\ UNCHANGED <<evs, agenda>>
+          /\ IF top.mode = "step"
+             THEN /\ top' = [top EXCEPT !.mode = "top"]
+                  /\ log' = Append(log, L("T", 0, TRUE, Val("peek", Peek(agenda), <<>>)))
+             ELSE IF top.mode = "steps"            \* run by single steps, observing the resources after each
+             THEN /\ log' = Append(log, L("T", 0, TRUE, Val("peek", Peek(agenda), ResState)))
+                  /\ UNCHANGED top
+             ELSE UNCHANGED <<top, log>>
+  /\ UNCHANGED <<now, seq, procs, run, script, res>>
 
 \* run(): no events left
 RunDry ==
   /\ top.mode \in {"run", "steps"} /\ Idle /\ agenda = {}
-  /\ IF top.uk = "none" THEN Return("RET", None, log)
-     ELSE Return("X", Val("RuntimeError", 0, <<>>), log)          \* until-event never triggered
-  /\ UNCHANGED <<now, agenda, seq, evs, procs, cur, run, script, res>>
+  /\ IF top.uk = "none" THEN Return("RET", None, log) /\ UNCHANGED evs
+     ELSE Return("X", Val("RuntimeError", 0, <<>>), log) /\ evs' = AbortEvs    \* until-event never triggered
+  /\ UNCHANGED <<now, agenda, seq, procs, cur, run, script, res>>
 \* step() on an empty schedule
 StepDry ==
   /\ top.mode = "step" /\ Idle /\ agenda = {}
@@ -534,7 +543,7 @@ Do(o) ==
                     /\ evs' = Append(evs, NewEv("until", "triggered", TRUE, None, FALSE, <<Cb("stop", 0)>>, 0, <<>>, FALSE))
                     \* the stop takes effect at exactly the requested instant
                     /\ agenda' = agenda \cup {[t |-> UntilAt(o.a), prio |-> URG, k |-> seq, e |-> u]} /\ seq' = seq + 1
-                    /\ top' = [top EXCEPT !.mode = "run", !.uk = "time", !.ue = u, !.n = @ + 1]
+                    /\ top' = [top EXCEPT !.mode = "run", !.uk = "time", !.ue = u, !.ut = UntilAt(o.a), !.n = @ + 1]
                     /\ log' = log
             /\ UNCHANGED <<procs, run>>
        [] o.k = "runev" ->                         \* run(until = event a)
